@@ -48,6 +48,7 @@ type Ledger struct {
 	Extra       map[string]interface{}
 	floorsApplied bool
 	importFed   map[string]bool // rules that receive imported obligations
+	seenPublished map[string]bool
 	claimed     map[string]bool // function keys that rules of this run rely on by role (see variant.go)
 }
 
